@@ -26,6 +26,18 @@ type flashSpec struct {
 	// request paths of the redirecting handler and of the redirect target ("" = /a, /b); nested
 	// paths matter for the path a client gives to a Set-Cookie without Path attribute
 	pathA, pathB string
+	// status given to Redirect().Status() (0 = not called, 302) and the redirect call used:
+	// "" = To(pathB), "route" = Route(name of pathB), "back-referer" = Back(..) with a Referer
+	// header naming pathB, "back-fallback" = Back(pathB) without Referer
+	status int
+	kind   string
+}
+
+func (sp *flashSpec) wantStatus() int {
+	if sp.status == 0 {
+		return 302
+	}
+	return sp.status
 }
 
 var (
@@ -76,6 +88,9 @@ func buildFlashApp(spec *flashSpec, lookKeys []string) *flashApp {
 	app := fiber.New(fiber.Config{ReadBufferSize: 16384})
 	a := func(c fiber.Ctx) error {
 		r := c.Redirect()
+		if spec.status != 0 {
+			r.Status(spec.status)
+		}
 		withs := func() {
 			for i, m := range spec.msgs {
 				if spec.noLevel[i] {
@@ -103,6 +118,14 @@ func buildFlashApp(spec *flashSpec, lookKeys []string) *flashApp {
 			if spec.inputFirst {
 				withs()
 			}
+		}
+		switch spec.kind {
+		case "route":
+			return r.Route("target:" + spec.b())
+		case "back-referer":
+			return r.Back("/fallback-not-used")
+		case "back-fallback":
+			return r.Back(spec.b())
 		}
 		return r.To(spec.b())
 	}
@@ -138,7 +161,7 @@ func buildFlashApp(spec *flashSpec, lookKeys []string) *flashApp {
 		return c.SendString("b")
 	}
 	for _, p := range flashPathsB[:3] {
-		app.Get(p, b)
+		app.Get(p, b).Name("target:" + p)
 	}
 	fa.pathB = spec.b()
 	fa.app = app
@@ -431,7 +454,7 @@ func anyString(r *gen.Rand, n int) string {
 	}
 }
 
-var flSeen struct{ complete, hostile int }
+var flSeen struct{ complete, hostile, stale int }
 
 func runFlash(e *ev.Env) {
 	setup(e)
@@ -465,6 +488,11 @@ func runFlash(e *ev.Env) {
 	// the cookie (fiber_flash, /users), not the issued (fiber_flash, /)
 	script("nested-target-path", &flashSpec{msgs: []fmsg{{Key: "status", Value: "saved", Level: 'A'}}, noLevel: []bool{false}, pathA: "/users/new", pathB: "/users/list"},
 		[]byte("GET /users/new HTTP/1.1\r\nHost: flash.example.com\r\n\r\n"))
+	for _, st := range []int{301, 303, 307, 308} {
+		script("status-"+itoa(st), &flashSpec{msgs: []fmsg{{Key: "notice", Value: "saved", Level: 'A'}}, noLevel: []bool{false}, status: st}, getA)
+	}
+	script("redirect-route", &flashSpec{msgs: []fmsg{{Key: "notice", Value: "saved", Level: 'A'}}, noLevel: []bool{false}, kind: "route"}, getA)
+	script("redirect-back-referer", &flashSpec{msgs: []fmsg{{Key: "notice", Value: "saved", Level: 'A'}}, noLevel: []bool{false}, kind: "back-referer"}, getA)
 	// a message key that is also a submitted field, in both call orders
 	script("message-key-equals-field-input-first", &flashSpec{msgs: []fmsg{{Key: "email", Value: "is taken", Level: 'A'}}, noLevel: []bool{false}, withInput: true, inputFirst: true},
 		[]byte("GET /a?email=john%40example.com HTTP/1.1\r\nHost: flash.example.com\r\n\r\n"))
@@ -501,6 +529,11 @@ func runFlash(e *ev.Env) {
 			spec.noLevel = append(spec.noLevel, !wireSafe && r.Chance(1, 4))
 		}
 		spec.pathA, spec.pathB = gen.Pick(r, flashPathsA), gen.Pick(r, flashPathsB)
+		spec.status = gen.Pick(r, []int{0, 0, 301, 302, 303, 307, 308})
+		spec.kind = gen.Pick(r, []string{"", "", "route", "back-referer", "back-fallback"})
+		if spec.kind == "route" {
+			spec.pathB = gen.Pick(r, flashPathsB[:3]) // Route() yields the registered path
+		}
 		reqA := []byte("GET " + spec.pathA + " HTTP/1.1\r\nHost: flash.example.com\r\n\r\n")
 		if !wireSafe && r.Chance(1, 2) {
 			spec.withInput = true
@@ -531,7 +564,7 @@ func runFlash(e *ev.Env) {
 			}
 			return ms
 		}
-		switch r.Intn(12) {
+		switch r.Intn(13) {
 		case 0, 1:
 			b := make([]byte, r.Range(1, 60))
 			for i := range b {
@@ -609,7 +642,7 @@ func runFlash(e *ev.Env) {
 				hostileCookie(e, c, "invalid", b)
 			}
 		default:
-			staleCookie(e, c, r.Range(1, 6), r.Range(1, 6))
+			staleCookie(e, c, r.Range(1, 4), r.Range(1, 5))
 		}
 	})
 
@@ -632,6 +665,9 @@ func runFlash(e *ev.Env) {
 		}
 		if flSeen.hostile == 0 {
 			e.Inconclusive("no hostile cookie reached handler B in this shard")
+		}
+		if flSeen.stale == 0 {
+			e.Inconclusive("no cookie was presented on a context that had just delivered real messages")
 		}
 	}
 
@@ -774,7 +810,11 @@ func flashScript(e *ev.Env, c *ev.Case, spec *flashSpec, reqA []byte) {
 		look = append(look, m.Key)
 	}
 	fa := buildFlashApp(spec, look)
-	detail := map[string]any{"request_a": show(reqA), "with_input": spec.withInput}
+	if spec.kind == "back-referer" {
+		host := []byte("Host: flash.example.com\r\n")
+		reqA = bytes.Replace(reqA, host, append(append([]byte(nil), host...), "Referer: "+spec.b()+"\r\n"...), 1)
+	}
+	detail := map[string]any{"request_a": show(reqA), "with_input": spec.withInput, "input_first": spec.inputFirst, "status": spec.wantStatus(), "kind": spec.kind}
 	var ml []string
 	for i, m := range spec.msgs {
 		s := msgKey(m.Key, m.Value, m.Level)
@@ -856,8 +896,8 @@ func flashScript(e *ev.Env, c *ev.Case, spec *flashSpec, reqA []byte) {
 			track(jar, attrs, spec.a(), time.Unix(0, 0))
 		}
 		client = "lenient"
-	case len(rs1) != 1 || rs1[0].Status != 302 || rs1[0].Get("Location") != spec.b():
-		e.Violation(c, "flash|redirect-response", "handler A did not answer 302 to "+spec.b(), detail)
+	case len(rs1) != 1 || rs1[0].Status != spec.wantStatus() || rs1[0].Get("Location") != spec.b():
+		e.Violation(c, "flash|redirect-response", "handler A did not answer "+itoa(spec.wantStatus())+" to "+spec.b(), detail)
 		return
 	default:
 		if name, after := injectedLine(rs1[0].Raw); name != "" {
@@ -1204,36 +1244,77 @@ func hostileCookie(e *ev.Env, c *ev.Case, kind string, cookie []byte) {
 	}
 }
 
-// staleCookie: one client's valid cookie, then (same server, pooled context) another client's
-// cookie that is only an array header.
+// staleCookie: one client's real flash cookie is delivered (N messages with unique marker texts
+// and marker levels), then - same server, same pooled context (one P, sequential connections) -
+// other clients present cookies that are only an array header, or well-formed lists whose
+// elements leave fields out, announcing 1..N+1 elements. Whatever these cookies yield, handler B
+// must see none of the first client's texts or levels.
 func staleCookie(e *ev.Env, c *ev.Case, first, announce int) {
+	r := c.R
 	spec := &flashSpec{}
 	fa := buildFlashApp(spec, nil)
+	marker := "mk" + strings.ReplaceAll(strings.ReplaceAll(c.ID, ":", "x"), "-", "x")
 	var ms []fmsg
 	for i := 0; i < first; i++ {
-		ms = append(ms, fmsg{Key: "secret" + itoa(i), Value: "of-another-user-" + itoa(i), Level: 'A'})
+		ms = append(ms, fmsg{Key: marker + "-key-" + itoa(i), Value: marker + "-value-of-another-user-" + itoa(i), Level: uint8(200 + i), Old: i%3 == 2})
 	}
 	_, _, _, p := fa.serveB(e, c, mpFlash(ms), true)
 	if p {
 		return
 	}
-	seen := len(fa.rep.messages)
-	cookie := []byte{0x90 | byte(announce)}
-	rs, perr, out, p := fa.serveB(e, c, cookie, true)
-	if p {
+	if fa.rep.nMsg+fa.rep.nOld != first {
+		e.Stat("stale_first_delivery_incomplete", 1)
 		return
 	}
-	e.Eval(1)
-	e.Stat("stale_probes", 1)
-	rep := *fa.rep
-	if perr != nil || len(rs) != 1 || !rep.ran {
-		return
+	// the probes of the other clients
+	var probes [][]byte
+	if announce >= 1 && announce <= 15 {
+		probes = append(probes, []byte{0x90 | byte(announce)})
 	}
-	e.Nontrivial("stale", itoa(first), itoa(announce), itoa(len(rep.messages)))
-	for _, m := range rep.messages {
-		if strings.HasPrefix(m.Key, "secret") {
-			e.Violation(c, "flash|malformed-cookie-yields-messages|previous-request-messages", "a cookie consisting of an array header makes the handler see the messages of the previous request (pooled context)",
-				map[string]any{"first_request_messages": seen, "cookie_hex": hexOf(cookie), "seen": msgKey(m.Key, m.Value, m.Level), "response": show(out)})
+	for n := 1; n <= first+1 && n <= 15; n++ {
+		b := mpArrayHdr(nil, uint32(n), 0)
+		for i := 0; i < n; i++ {
+			fields := []string{"key", "value", "level", "isOldInput"}
+			gen.Shuffle(r, fields)
+			fields = fields[:r.Intn(4)] // 0..3 of the four fields
+			b = mpMapHdr(b, uint32(len(fields)), 0)
+			for _, f := range fields {
+				if f == "level" {
+					b = mpUint8(mpStr(b, f), uint8(0x21+r.Intn(0x40))) // never a marker level
+				} else {
+					b = appendField(b, r, f)
+				}
+			}
+		}
+		probes = append(probes, b)
+	}
+	for _, cookie := range probes {
+		rs, perr, out, p := fa.serveB(e, c, cookie, true)
+		if p {
+			return
+		}
+		e.Eval(1)
+		e.Stat("stale_probes", 1)
+		rep := *fa.rep
+		if perr != nil || len(rs) != 1 || !rep.ran {
+			continue
+		}
+		flSeen.stale++
+		e.Nontrivial("stale", itoa(first), itoa(len(cookie)/4), itoa(min(rep.nMsg, 9)), itoa(min(rep.nOld, 9)))
+		leak := ""
+		for _, m := range rep.messages {
+			if strings.Contains(m.Key, marker) || strings.Contains(m.Value, marker) || m.Level >= 200 {
+				leak = msgKey(m.Key, m.Value, m.Level)
+			}
+		}
+		for _, m := range rep.oldInputs {
+			if strings.Contains(m.Key, marker) || strings.Contains(m.Value, marker) {
+				leak = msgKey(m.Key, m.Value, 0)
+			}
+		}
+		if leak != "" {
+			e.Violation(c, "flash|malformed-cookie-yields-messages|previous-request-messages", "a cookie that carries none of it makes the handler see texts or levels of the previous request's messages (pooled context)",
+				map[string]any{"first_request_messages": first, "cookie_hex": hexOf(cookie), "cookie": show(cookie), "seen": leak, "response": show(out)})
 			return
 		}
 	}
